@@ -23,7 +23,7 @@ func init() {
 
 func runC09(c *Ctx) {
 	c.Rule("R9.1", 1, "no unconsumed input: success requires Remaining == nil")
-	c.Rule("R9.2", 30, "semantic validation is present, heard, and the sibling mapper sets agree")
+	c.Rule("R9.2", 34, "semantic validation is present, heard, and the sibling mapper sets agree")
 	c.Rule("R9.3", 3, "the escape list equals the documented one and is used on both sides")
 
 	pp := c.Pkg("internal/regex/parser")
@@ -224,6 +224,60 @@ func checkSemanticValidation(c *Ctx, p *packages.Package) {
 		c.Check("R9.2", pk+": a repetition range whose minimum exceeds a present maximum is recorded as an error", fd.Pos(), records(fd, withNil), "no `if up != nil && low > *up { m.errors = errors.Join(...) }`", "a{3,1}")
 	} else {
 		c.Lost("R9.2", pk+".ToRange")
+	}
+	// the bounds that reach the comparison are the parsed ones: between the parsed numbers and the comparison, a value is
+	// installed under presence tests only (comma-ok flag, nil test), never under a test on the value itself
+	for _, name := range []string{"ToUpperBound", "ToRange"} {
+		fd := FuncDecl(p, mappers.Obj().Name(), name)
+		if fd == nil {
+			c.Lost("R9.2", pk+"."+name)
+			continue
+		}
+		c.Analysed(funcKey(p, fd))
+		nGuards, bad := 0, ""
+		ast.Inspect(fd.Body, func(n ast.Node) bool {
+			ifs, ok := n.(*ast.IfStmt)
+			if !ok {
+				return true
+			}
+			installs := false
+			for _, st := range ifs.Body.List {
+				if as, ok := st.(*ast.AssignStmt); ok && len(as.Lhs) == 1 {
+					if _, isIdent := as.Lhs[0].(*ast.Ident); isIdent {
+						installs = true
+					}
+				}
+			}
+			if !installs {
+				return true
+			}
+			nGuards++
+			okVar := ""
+			if as, isAs := ifs.Init.(*ast.AssignStmt); isAs && len(as.Lhs) == 2 {
+				if id, isID := as.Lhs[1].(*ast.Ident); isID {
+					okVar = id.Name
+				}
+			}
+			var presence func(e ast.Expr) bool
+			presence = func(e ast.Expr) bool {
+				switch x := ast.Unparen(e).(type) {
+				case *ast.Ident:
+					return x.Name == okVar
+				case *ast.BinaryExpr:
+					if x.Op == token.LAND {
+						return presence(x.X) && presence(x.Y)
+					}
+					return x.Op == token.NEQ && (isNilExpr(info, x.Y) || isNilExpr(info, x.X))
+				}
+				return false
+			}
+			if !presence(ifs.Cond) {
+				bad = types.ExprString(ifs.Cond)
+			}
+			return true
+		})
+		c.Check("R9.2", pk+"."+name+": a parsed bound is installed whenever it is present (the guard is a presence test, not a test on the value)", fd.Pos(), nGuards >= 1 && bad == "",
+			fmt.Sprintf("the bound is installed under `%s`: for the values the extra test excludes, the comparison of minimum and maximum never sees the written bound", bad), "a{1,0}")
 	}
 	// Parse returns m.errors when non-nil, before using the result
 	if fd := FuncDecl(p, "", "Parse"); fd != nil {
